@@ -180,6 +180,8 @@ func main() {
 	switch flag.Arg(0) {
 	case "c12":
 		c12(*seed, *n, *replay)
+	case "c09":
+		c09(*seed, *n, *replay)
 	default:
 		fmt.Fprintln(os.Stderr, "usage: recvharness [-seed N] [-n N] [-replay file] c12|c09|c10|c13|c17|c20")
 		os.Exit(2)
